@@ -370,14 +370,14 @@ PROP = Prop(
           "re-tested with an independent seed and 4K samples before it is reported. Non-trivial = "
           ">=3 distinct scores per class (wellformed), >=3 links (chain), every case (distribution)."),
     clauses=[
-        Clause("wellformed", check_wellformed, strategy=_wf_cases(), quick=500, thorough=2500,
+        Clause("wellformed", check_wellformed, strategy=_wf_cases(), quick=500, thorough=15000,
                quick_shards=4, min_nontrivial=200, doc="per-sample invariants"),
         Clause("rejections", check_rejections, strategy=_rej_cases, quick=40, thorough=100, shards=1,
                min_nontrivial=4, doc="documented ValueErrors"),
         Clause("chain", check_chain, kind="machine", machine=make_chain_machine, quick=80,
-               thorough=400, quick_shards=2, shards=8, steps=8, min_nontrivial=20,
+               thorough=2400, quick_shards=2, shards=8, steps=8, min_nontrivial=20,
                doc="sample of a sample of ... histories"),
-        Clause("distribution", check_distribution, strategy=_dist_strategy, quick=12, thorough=40,
+        Clause("distribution", check_distribution, strategy=_dist_strategy, quick=12, thorough=240,
                quick_shards=4, shards=16, min_nontrivial=20,
                doc="unbiasedness: stratum sizes and per-score multiplicities (statistical)"),
     ],
